@@ -304,7 +304,7 @@ func checkC11(w *World, r *Report) {
 			}
 			n4++
 			construct := "store RenderContext." + f
-			why, fresh := freshMap(st.Val, 0)
+			why, fresh := freshMapFor(st.Val, 0, fa)
 			if fresh {
 				r.ok("R11.4", ssaName(fn), construct, w.posOf(in.Pos()), why, false)
 			} else {
@@ -370,9 +370,64 @@ func ctxLeaves(v ssa.Value, param *ssa.Parameter, ctors map[*ssa.Function]bool) 
 }
 
 // freshMap: is the value a fresh map (pool Get, make, literal) or nil?
-func freshMap(v ssa.Value, depth int) (string, bool) {
+func freshMap(v ssa.Value, depth int) (string, bool) { return freshMapFor(v, depth, nil) }
+
+// freshMapFor: as freshMap; additionally the value may be the current value of the very field
+// it is stored to (target), which changes nothing (`ctx.m = emptied(ctx.m)`).
+func freshMapFor(v ssa.Value, depth int, target *ssa.FieldAddr) (string, bool) {
 	if depth > 6 {
 		return "a value of unknown origin", false
+	}
+	if target != nil {
+		if u, ok := v.(*ssa.UnOp); ok && u.Op == token.MUL {
+			if fa, ok := u.X.(*ssa.FieldAddr); ok && fa.Field == target.Field && sameValue(fa.X, target.X) {
+				return "the field's own current map", true
+			}
+		}
+	}
+	switch x := v.(type) {
+	case *ssa.Call:
+		// a helper of the package whose every result is fresh, or is one of its parameters and
+		// the argument passed for it is fresh / the field's own map
+		f := x.Call.StaticCallee()
+		if f == nil || f.Pkg == nil || f.Pkg.Pkg.Path() != twigPath || len(f.Blocks) == 0 || x.Call.IsInvoke() {
+			break
+		}
+		why, ok := "", true
+		nret := 0
+		instrsOf(f, func(in ssa.Instruction) {
+			ret, isRet := in.(*ssa.Return)
+			if !isRet || !ok {
+				return
+			}
+			res := retResults(ret)
+			if len(res) != 1 {
+				why, ok = "a value of unknown origin", false
+				return
+			}
+			nret++
+			if p, isP := res[0].(*ssa.Parameter); isP {
+				for i, fp := range f.Params {
+					if fp == p && i < len(x.Call.Args) {
+						if w2, ok2 := freshMapFor(x.Call.Args[i], depth+1, target); !ok2 {
+							why, ok = w2, false
+						}
+						return
+					}
+				}
+				why, ok = "a value of unknown origin", false
+				return
+			}
+			if w2, ok2 := freshMapFor(res[0], depth+1, nil); !ok2 {
+				why, ok = w2+" (returned by "+f.Name()+")", false
+			}
+		})
+		if ok && nret > 0 {
+			return "fresh from helper " + f.Name(), true
+		}
+		if !ok {
+			return why, false
+		}
 	}
 	switch x := v.(type) {
 	case *ssa.Const:
@@ -387,7 +442,7 @@ func freshMap(v ssa.Value, depth int) (string, bool) {
 		}
 	case *ssa.Phi:
 		for _, e := range x.Edges {
-			if why, ok := freshMap(e, depth+1); !ok {
+			if why, ok := freshMapFor(e, depth+1, target); !ok {
 				return why, false
 			}
 		}
